@@ -444,6 +444,11 @@ pub fn worker(w: &mut Worker) {
     for base in ["and", "or", "not"] {
         pool.extend(case_variants(base).into_iter().filter(|v| v != base));
     }
+    // words that are keywords or operators elsewhere (other shells, other languages, other places of
+    // this language) are ordinary truthy values in a condition
+    for s in ["then", "do", "done", "fi", "begin", "in", "is", "else", "elseif", "end", "endif", "xor", "nor", "&&", "||", "!", "==", "!=", "=", "<", ">", "-a", "-o", "-n", "-z", "?", ":", ";", ",", "{", "}", "[", "]"] {
+        pool.push(s.to_string());
+    }
     for s in ["0", "1", "00", "0.0", "", " ", "off", "n", "null", "False ", " false", "é", "0 ", "-0", "nO\n", "(0)", "(false)", "(no)", "()", "(x", "x)", "f(x)", ":)", "(no", "yes)", "and)", "(or"] {
         pool.push(s.to_string());
     }
@@ -539,7 +544,7 @@ pub fn crash_sig(_case: &Value, kind: &str) -> String {
     kind.to_string()
 }
 
-pub const RULE: &str = "every token sequence up to the length bound over {T,F,and,or,(,)} that the grammar cond := disj ('and' disj)* ; disj := atom ('or' atom)* ; atom := value | '(' cond? ')' accepts, spelled with true/false, through each of not (run_instruction), if, elseif, while (scripts with marker commands); then the truthiness pool (all 2^n case variants of false/no/true/yes and 27 other values, among them values that start or end with a parenthesis) in 6 statement frames; then a command in condition position handing back each value of that pool and the words and, or, (, ), not, 'true and false', 'false or true', '( false )' as its output (one value, judged by the truthiness table); then all sentences up to the second bound with 5x5 truthy/falsy spellings. Oracle: recursive-descent reference evaluator. A case is (statement, consumer); non-trivial when the statement has an operator or group; states = distinct (consumer, value, length) classes; transitions = real evaluations. Scale cases: conjunctions, disjunctions and sequences of groups with 50/300 (thorough 3000) operands, groups nested 10/60 (thorough 400) deep, each with its value flipped by the last operand, through all four consumers";
+pub const RULE: &str = "every token sequence up to the length bound over {T,F,and,or,(,)} that the grammar cond := disj ('and' disj)* ; disj := atom ('or' atom)* ; atom := value | '(' cond? ')' accepts, spelled with true/false, through each of not (run_instruction), if, elseif, while (scripts with marker commands); then the truthiness pool (all 2^n case variants of false/no/true/yes and 27 other values, among them values that start or end with a parenthesis) in 6 statement frames; then a command in condition position handing back each value of that pool and the words and, or, (, ), not, 'true and false', 'false or true', '( false )' as its output (one value, judged by the truthiness table); then all sentences up to the second bound with 5x5 truthy/falsy spellings. Oracle: recursive-descent reference evaluator. A case is (statement, consumer); non-trivial when the statement has an operator or group; states = distinct (consumer, value, length) classes; transitions = real evaluations. Scale cases: conjunctions, disjunctions and sequences of groups with 50/300 (thorough 3000) operands, groups nested 10/60 (thorough 400) deep, each with its value flipped by the last operand, through all four consumers The truthiness pool also has every case variant of and / or / not other than the lower-case one, and 33 words that are keywords or operators elsewhere (then, do, fi, &&, ==, -a ...): all ordinary truthy values";
 pub const ASSUMPTIONS: &[&str] = &["atoms that are names of registered commands are excluded (they are dispatched as commands)", "ill-formed statements are not constrained"];
 pub const EXHAUSTIVE: bool = true;
 pub const WALL_CAP_S: (u64, u64) = (50, 1500);
